@@ -13,9 +13,9 @@ property is an invariant of every replica under every message sequence — the m
 other replicas arrive as `delta` / `tombstone` / `fullState` / `digest` / `batch` / peers'
 answers, in any order, duplicated or never.
 
-Result.  The full statement is FALSE of the current code: `handleGet` with `ReadFrom ≠ 0` stores
-what the peers answered without consulting the tombstones (`C41_refuted`).  It holds for every
-message sequence without coordinated reads (`C41_partial`).
+Result.  The full statement holds (`C41_holds`) — since fix eb69dd7.  Before it, `handleGet` with
+`ReadFrom ≠ 0` stored what the peers answered without consulting the tombstones (the old model
+proved `¬ C41_full` with the witness kept below as an example; seeded/C41-revert-fix reverts it).
 -/
 import GoaktVerif.Lemmas.C41
 
@@ -37,11 +37,6 @@ def kindOf : Msg V → List (Out V) → Kind
   | .readReq k, [.value v] => .read k v.isNone
   | .prune now, _ => .prune now
   | _, _ => .other
-
-/-- the messages of the partial theorem: everything except a coordinated Get -/
-def localRead : Msg V → Bool
-  | .get _ (some _) => false
-  | _ => true
 
 /-! ### the handlers preserve the invariant -/
 
@@ -186,16 +181,46 @@ theorem handlePrune_inv (ops : Ops V) (r : Rep V) (now : Int) (h : Inv r) : Inv 
   rw [aget_map, h k (ahas_of_filter _ _ _ hk)]
   rfl
 
-/-! ### the step theorem (everything but a coordinated Get) -/
+theorem handleGet_inv (ops : Ops V) (r : Rep V) (k : Nat) (peers : Option (List (Option V))) (h : Inv r) :
+    Inv (handleGet ops r k peers).1 := by
+  unfold handleGet
+  split
+  · exact h
+  · rename_i hk
+    cases peers with
+    | none => exact h
+    | some rs =>
+      simp only
+      split
+      · intro k' hk'
+        simp only at hk' ⊢
+        rw [aget_aset]
+        by_cases e : k' = k
+        · subst e; simp [hk'] at hk
+        · simp [e, h k' hk']
+      · exact h
 
-theorem step_inv (ops : Ops V) (r : Rep V) (m : Msg V) (hm : localRead m = true) (h : Inv r) :
+theorem handleGet_tombs (ops : Ops V) (r : Rep V) (k : Nat) (peers : Option (List (Option V))) :
+    (handleGet ops r k peers).1.tombs = r.tombs ∧ (handleGet ops r k peers).1.ttl = r.ttl := by
+  unfold handleGet
+  split
+  · exact ⟨rfl, rfl⟩
+  · cases peers with
+    | none => exact ⟨rfl, rfl⟩
+    | some rs => simp only; split <;> exact ⟨rfl, rfl⟩
+
+/-- a Get (local or coordinated) of a tombstoned key answers "no data" and changes nothing -/
+theorem handleGet_tombed (ops : Ops V) (r : Rep V) (k : Nat) (peers : Option (List (Option V)))
+    (hk : ahas r.tombs k = true) : handleGet ops r k peers = (r, [.value none]) := by
+  unfold handleGet; simp [hk]
+
+/-! ### the step theorem -/
+
+theorem step_inv (ops : Ops V) (r : Rep V) (m : Msg V) (h : Inv r) :
     Inv (step ops r m).1 := by
   cases m with
   | update k dt init f => exact handleUpdate_inv ops r k dt init f h
-  | get k peers =>
-    cases peers with
-    | none => exact h
-    | some rs => simp [localRead] at hm
+  | get k peers => exact handleGet_inv ops r k peers h
   | delete k now => exact handleDelete_inv r k now h
   | tombstone t => exact handleTomb_inv r t h
   | delta d => exact handleDelta_inv ops r d h
@@ -213,10 +238,7 @@ theorem step_inv (ops : Ops V) (r : Rep V) (m : Msg V) (hm : localRead m = true)
 theorem step_ttl (ops : Ops V) (r : Rep V) (m : Msg V) : (step ops r m).1.ttl = r.ttl := by
   cases m with
   | update k dt init f => exact (handleUpdate_tombs ops r k dt init f).2
-  | get k peers =>
-    cases peers with
-    | none => rfl
-    | some rs => simp only [step, handleGet]; split <;> rfl
+  | get k peers => exact (handleGet_tombs ops r k peers).2
   | delete k now => rfl
   | tombstone t => exact (handleTomb_ttl r t).1
   | delta d => exact (handleDelta_tombs ops r d).2.1
@@ -240,9 +262,8 @@ theorem step_keeps (ops : Ops V) (r : Rep V) (m : Msg V) (k : Nat) (t : Tomb) (h
   | update k' dt init f => left; rw [show (step ops r (.update k' dt init f)).1 = (handleUpdate ops r k' dt init f).1 from rfl, (handleUpdate_tombs ops r k' dt init f).1]; exact hb
   | get k' peers =>
     left
-    cases peers with
-    | none => exact hb
-    | some rs => simp only [step, handleGet]; split <;> exact hb
+    show ahas (handleGet ops r k' peers).1.tombs k = true
+    rw [(handleGet_tombs ops r k' peers).1]; exact hb
   | delete k' now => left; exact (handleDelete_keeps r k' now k hb).1
   | tombstone t' => left; exact handleTomb_keeps r t' k hb
   | delta d => left; rw [show (step ops r (.delta d)).1 = handleDelta ops r d from rfl, (handleDelta_tombs ops r d).1]; exact hb
@@ -272,10 +293,12 @@ theorem prune_expires (ops : Ops V) (r : Rep V) (now : Int) (k : Nat) (t : Tomb)
   unfold handlePrune
   simp [List.mem_filter]
 
-/-- (b): a local Get / a peer's read request for a tombstoned key answers "no data" -/
+/-- (b): a Get — local or coordinated, whatever the peers answer — and a peer's read request for a
+    tombstoned key answer "no data" -/
 theorem read_none (ops : Ops V) (r : Rep V) (k : Nat) (h : Inv r) (hk : ahas r.tombs k = true) :
-    (step ops r (.get k none)).2 = [.value none] ∧ (step ops r (.readReq k)).2 = [.value none] := by
-  simp [step, handleGet, h k hk]
+    (∀ peers, (step ops r (.get k peers)) = (r, [.value none])) ∧ (step ops r (.readReq k)).2 = [.value none] := by
+  refine ⟨fun peers => handleGet_tombed ops r k peers hk, ?_⟩
+  simp [step, h k hk]
 
 /-- a local update / delta / full-state entry for a tombstoned key is not accepted: the state is
     unchanged and nothing is published -/
@@ -305,23 +328,27 @@ theorem absentOK_of_inv (r : Rep V) (h : Inv r) : absentOK (viewOf r) = true := 
   have := (aget_none_iff _ _).mp (h t.1 this)
   simpa [viewOf] using this
 
-/-- the model satisfies the oracle on every step without a coordinated Get -/
-theorem step_ok (ops : Ops V) (r : Rep V) (m : Msg V) (hm : localRead m = true) (h : Inv r) :
+/-- the model satisfies the oracle on every step -/
+theorem step_ok (ops : Ops V) (r : Rep V) (m : Msg V) (h : Inv r) :
     stepOK r.ttl (viewOf r) (viewOf (step ops r m).1) (kindOf m (step ops r m).2) = true := by
   unfold stepOK
   simp only [Bool.and_eq_true]
-  refine ⟨⟨absentOK_of_inv _ (step_inv ops r m hm h), ?_⟩, ?_⟩
+  refine ⟨⟨absentOK_of_inv _ (step_inv ops r m h), ?_⟩, ?_⟩
   · -- reads
     cases m with
     | get k peers =>
-      cases peers with
-      | none =>
-        simp only [step, handleGet, kindOf, readOK, Bool.or_eq_true, Bool.not_eq_true']
-        rw [tombed_viewOf]
-        by_cases hk : ahas r.tombs k = true
-        · right; rw [h k hk]; rfl
-        · left; simpa using hk
-      | some rs => simp [localRead] at hm
+      by_cases hk : ahas r.tombs k = true
+      · simp only [step, handleGet_tombed ops r k peers hk, kindOf, readOK]
+        simp
+      · have ht : tombed (viewOf r) k = false := by rw [tombed_viewOf]; simpa using hk
+        unfold kindOf
+        split
+        · rename_i heq _
+          cases heq
+          simp [readOK, ht]
+        · rename_i heq _
+          cases heq
+        all_goals simp [readOK]
     | readReq k =>
       simp only [step, kindOf, readOK, Bool.or_eq_true, Bool.not_eq_true']
       rw [tombed_viewOf]
@@ -368,46 +395,26 @@ def C41_full : Prop :=
   ∀ (V : Type) (ops : Ops V) (r : Rep V) (m : Msg V),
     Reach ops (fun _ => true) r → holdsAt ops r m
 
-/-- the same, for message sequences without coordinated Gets (`ReadFrom = 0`) -/
-def C41_guarded : Prop :=
-  ∀ (V : Type) (ops : Ops V) (r : Rep V) (m : Msg V),
-    Reach ops localRead r → localRead m = true → Inv r ∧ holdsAt ops r m
-
-theorem reach_inv (ops : Ops V) (r : Rep V) (h : Reach ops localRead r) : Inv r := by
+theorem reach_inv (ops : Ops V) (P : Msg V → Bool) (r : Rep V) (h : Reach ops P r) : Inv r := by
   induction h with
   | init n ttl => intro k hk; simp [Rep.init, ahas, aget] at hk
-  | step r m _ hm ih => exact step_inv ops r m hm ih
+  | step r m _ _ ih => exact step_inv ops r m ih
 
-theorem C41_partial : C41_guarded := by
-  intro V ops r m hr hm
-  exact ⟨reach_inv ops r hr, step_ok ops r m hm (reach_inv ops r hr)⟩
+theorem C41_holds : C41_full := by
+  intro V ops r m hr
+  exact step_ok ops r m (reach_inv ops _ r hr)
 
-/-- witness: values are naturals merged by `max`.  A replica deletes key 0 (tombstone set, clock
-    value 100), then handles `Get` with `ReadFrom ≠ 0` while one peer still answers the value 5:
-    the reply carries 5 and key 0 is back in the store next to its tombstone. -/
+/-- values are naturals merged by `max` -/
 def natOps : Ops Nat := ⟨Nat.max, fun v => some v, id, id⟩
 
-theorem C41_refuted : ¬ C41_full := by
-  intro h
-  have := h Nat natOps (step natOps (Rep.init 0 24) (.delete 0 100)).1 (.get 0 (some [some 5]))
-    (Reach.step _ _ (Reach.init 0 24) rfl)
-  have bad : stepOK (24 : Int)
-      (viewOf (step natOps (Rep.init 0 24) (.delete 0 100)).1)
-      (viewOf (step natOps (step natOps (Rep.init 0 24) (.delete 0 100)).1 (.get 0 (some [some 5]))).1)
-      (kindOf (.get 0 (some [some 5]))
-        (step natOps (step natOps (Rep.init 0 24) (.delete 0 100)).1 (.get 0 (some [some 5]))).2) = false := by
-    decide
-  rw [holdsAt, step_ttl] at this
-  rw [show (Rep.init 0 24 : Rep Nat).ttl = 24 from rfl, bad] at this
-  exact Bool.false_ne_true this
-
-/-- the witness as a run: the coordinated Get answers `some 5` and leaves the key stored -/
+/-- the former counterexample (before fix eb69dd7 the replies were `[none], [some 5], [some 5]`):
+    a replica deletes key 0, then handles `Get` with `ReadFrom ≠ 0` while one peer still answers 5 -/
 example : (run natOps (Rep.init 0 24) [.delete 0 100, .get 0 (some [some 5]), .get 0 none]).2.map
-    (fun os => os.map fun | Out.value v => v | _ => none) = [[none], [some 5], [some 5]] := by decide
+    (fun os => os.map fun | Out.value v => v | _ => none) = [[none], [none], [none]] := by decide
 
-/-- non-vacuity of `C41_partial`: a reachable state with a tombstone and other live data, at which
-    update / delta / full state for the tombstoned key are all rejected -/
-example : ∃ r : Rep Nat, Reach natOps localRead r ∧ ahas r.tombs 1 = true ∧ ahas r.store 2 = true
+/-- non-vacuity: a reachable state with a tombstone and other live data, at which update / delta /
+    full state for the tombstoned key are all rejected -/
+example : ∃ r : Rep Nat, Reach natOps (fun _ => true) r ∧ ahas r.tombs 1 = true ∧ ahas r.store 2 = true
     ∧ (step natOps r (.fullState [(1, 0, 7), (2, 0, 9)])).1.store = [(2, 9)] :=
   ⟨(step natOps (step natOps (step natOps (Rep.init 0 24) (.update 1 0 0 (· + 1))).1 (.update 2 0 0 (· + 3))).1 (.delete 1 100)).1,
    Reach.step _ _ (Reach.step _ _ (Reach.step _ _ (Reach.init 0 24) rfl) rfl) rfl, by decide, by decide, by decide⟩
